@@ -110,6 +110,19 @@ pub mod state_handle {
     type FormatFunction = VFormatFn;
 
     //@ item src/writers/file_log_writer/state_handle.rs struct SyncHandle
+    //@ item src/writers/file_log_writer/state_handle.rs enum StateHandle
+    //@   dropattr #[derive
+    impl StateHandle {
+        pub closed spec fn sync_handle(&self) -> SyncHandle { self->Sync_0 }
+    //@ fn src/writers/file_log_writer/state_handle.rs impl StateHandle / fn new_sync
+    //@   ret r
+    //@   props C20,C15
+    //@   ens[StateHandle::new_sync.post] r is Sync && r.sync_handle().ending() == state_line_ending() && r.sync_handle().fmt() == format_function
+    //@ fn src/writers/file_log_writer/state_handle.rs impl StateHandle / fn format_function
+    //@   ret r
+    //@   props C20
+    //@   ens[StateHandle::format_function.post] r == self.sync_handle().fmt()
+    }
 
     impl SyncHandle {
         pub closed spec fn ending(&self) -> Seq<u8> { self.line_ending@ }
